@@ -467,28 +467,40 @@ func main() {
 		if !ok {
 			fail("tempFilePrefix is not a literal")
 		}
-		var setOps []string
-		ast.Inspect(funcDecl(fsc, "set"), func(n ast.Node) bool {
-			call, ok := n.(*ast.CallExpr)
-			if !ok {
-				return true
-			}
-			if se, ok := call.Fun.(*ast.SelectorExpr); ok {
-				switch x := se.X.(type) {
-				case *ast.SelectorExpr:
-					if x.Sel.Name == "root" {
-						setOps = append(setOps, "root."+se.Sel.Name)
-					}
-				case *ast.Ident:
-					if x.Name == "f" {
-						setOps = append(setOps, "f."+se.Sel.Name)
+		// the file-system operations of a function, in source order: calls on the os.Root (c.root.X), on the
+		// open file (f.X) and on the cache's own helpers (c.x)
+		opsOf := func(fn string) []string {
+			var ops []string
+			ast.Inspect(funcDecl(fsc, fn), func(n ast.Node) bool {
+				call, ok := n.(*ast.CallExpr)
+				if !ok {
+					return true
+				}
+				if se, ok := call.Fun.(*ast.SelectorExpr); ok {
+					switch x := se.X.(type) {
+					case *ast.SelectorExpr:
+						if x.Sel.Name == "root" {
+							ops = append(ops, "root."+se.Sel.Name)
+						}
+					case *ast.Ident:
+						if x.Name == "f" || x.Name == "c" {
+							ops = append(ops, x.Name+"."+se.Sel.Name)
+						}
 					}
 				}
+				return true
+			})
+			return ops
+		}
+		setOps := opsOf("set")
+		var helperOps []string
+		for _, op := range setOps {
+			if name, ok := strings.CutPrefix(op, "c."); ok {
+				helperOps = append(helperOps, op+":"+strings.Join(opsOf(name), ","))
 			}
-			return true
-		})
+		}
 		return fmt.Sprintf("def tempFilePrefix : String := %s\n", strconv.Quote(v.(string))) +
-			leanStrList("goStatementsFscache", goStmts(fsc)) + leanStrList("fsSetOps", setOps)
+			leanStrList("goStatementsFscache", goStmts(fsc)) + leanStrList("fsSetOps", setOps) + leanStrList("fsSetHelperOps", helperOps)
 	})
 	b.WriteString("end Httpcache.Generated\n")
 	fmt.Print(b.String())
